@@ -114,7 +114,7 @@ def unit_case(draw):
     ngroups = draw(st.integers(1, max(1, n)))
     labels = draw(st.lists(st.integers(0, 10**5), min_size=ngroups, max_size=ngroups, unique=True))
     gid = [labels[draw(st.integers(0, ngroups - 1))] for _ in range(n)]
-    dtype = draw(st.sampled_from(["f", "f", "i", "b", "M", "U"]))
+    dtype = draw(st.sampled_from(["f", "f", "i", "i", "i", "b", "M", "U"]))
     if dtype == "f":
         col = draw(st.lists(st.one_of(st.floats(-1e6, 1e6), st.sampled_from([0.0, -0.0, 1e-300, 1e15, -1e15, 0.1, 0.2, 0.3])), min_size=n, max_size=n))
     elif dtype == "i":
@@ -123,7 +123,10 @@ def unit_case(draw):
         width = draw(st.sampled_from(["int64", "int64", "int32", "int16", "int8", "uint8"]))
         info = np.iinfo(width)
         lo, hi = max(int(info.min), -10**6), min(int(info.max), 10**6)
-        col = draw(st.lists(st.one_of(st.integers(lo, hi), st.sampled_from([lo, hi, hi - 1])), min_size=n, max_size=n))
+        # values near the ends of the width are frequent, so that two members of a group usually have a
+        # total outside the width
+        edge = st.sampled_from([hi, hi, hi - 1, hi // 2 + 1, lo, lo, lo + 1, lo // 2 - 1 if lo < 0 else 0])
+        col = draw(st.lists(st.one_of(st.integers(lo, hi), edge, edge), min_size=n, max_size=n))
     elif dtype == "b":
         col = draw(st.lists(st.booleans(), min_size=n, max_size=n))
     elif dtype == "M":
@@ -391,8 +394,8 @@ def oracle(case, date, sh, ctx):
 
 
 def run(tier, seed, t0):
-    n = 400 if tier == "quick" else 20000
-    extra = [("vf.checks.c11", "unit_shard", [{"n": n // 8, "seed": seed, "i": i} for i in range(8)])]
+    n = 4800 if tier == "quick" else 64000  # unit-level cases are cheap (about 1 ms each)
+    extra = [("vf.checks.c11", "unit_shard", [{"n": n // 16, "seed": seed, "i": i} for i in range(16)])]
     return popcheck.run(__name__, tier, seed, t0, extra_descs=extra)
 
 
